@@ -404,7 +404,7 @@ impl SodiumCtx {
         self.with_data(|data: &mut SodiumCtxData| {
             (
                 data.transaction_depth,
-                data.changed_nodes.len(),
+                data.changed_nodes.len() + data.changed_dependents.len(),
                 data.pre_eot.len(),
                 data.pre_post.len(),
                 data.post.len(),
